@@ -40,7 +40,11 @@ func (w *World) createIterator(t *simcore.Task, wt *WTxn, ti int) bool {
 	}
 	var it statedb.ChangeIterator[*Obj]
 	var err error
-	if !w.guard("C07", "Changes", func() { it, err = tc.T.Changes(wt.txn) }) {
+	cprop := "C07"
+	if w.prop == "C02" || w.prop == "C08" || w.prop == "C10" {
+		cprop = w.prop
+	}
+	if !w.guard(cprop, "Changes", func() { it, err = tc.T.Changes(wt.txn) }) {
 		return false
 	}
 	if err != nil {
@@ -236,7 +240,14 @@ func (w *World) closeIterator(t *simcore.Task, ic *IterCtx) bool {
 		tx.holding = []int{ic.ti}
 		defer func() { tx.holding = nil }()
 	}
-	ok := w.guard("C10", "ChangeIterator.Close", func() { ic.it.Close() })
+	// a panic here is attributed to the property under check when it is one whose statement covers
+	// creating and closing iterators (after aborts: C02; delivery: C07/C08; never blocking: C10)
+	prop := "C10"
+	switch w.prop {
+	case "C02", "C07", "C08":
+		prop = w.prop
+	}
+	ok := w.guard(prop, "ChangeIterator.Close", func() { ic.it.Close() })
 	t.Op = ""
 	ic.closed = true
 	ic.live = false
